@@ -78,9 +78,7 @@ def unit_lincomb_impl(dt, pat, canary=None):
                 return ('raise', e.exc)
             return ('ok', (a, b, els, old, out))
 
-        res = ip.explore(path)
-        ctx.paths += len(res)
-        for st, (status, r) in res:
+        for st, (status, r) in ctx.explore(path):
             info = {'dtype': dt, 'alias': list(pat)}
             rp = {'kind': 'lincomb_impl', 'dtype': dt, 'alias': list(pat)}
             if status == 'raise':
@@ -132,9 +130,7 @@ def unit_tensor_binary(meth, dt, pat):
             except ip.PyRaise as e:
                 return ('raise', e.exc)
             return ('ok', (els, old, out, a, b, ret))
-        res = ip.explore(path)
-        ctx.paths += len(res)
-        for st, (status, r) in res:
+        for st, (status, r) in ctx.explore(path):
             info = {'dtype': dt, 'alias': list(pat), 'method': meth}
             rp = {'kind': 'tensor_binary', 'method': meth, 'dtype': dt, 'alias': list(pat)}
             if status == 'raise':
@@ -209,9 +205,7 @@ def unit_tensor_nullary(meth, dt):
             except ip.PyRaise as e:
                 return ('raise', e.exc)
             return ('ok', (sb, x, old, ret))
-        res = ip.explore(path)
-        ctx.paths += len(res)
-        for st, (status, r) in res:
+        for st, (status, r) in ctx.explore(path):
             info = {'dtype': dt, 'method': meth}
             if status == 'raise':
                 ctx.fail(st, 'no_raise', 'raises %s%r' % (lib.exc_name(r), r.fields.get('args')), info)
@@ -281,15 +275,13 @@ def unit_space_method(meth, field):
                 except ip.PyRaise as e:
                     return ('raise', (e.exc, els, old, asp))
                 return ('ok', (els, old, out, a, b, ret, asp))
-            res = ip.explore(path)
-            ctx.paths += len(res)
             # rejection order taken from the code: out, a, x1 first; then the `x2 without b` misuse; then b, x2
             bad_first = ro == 'alien' or r1 == 'alien' or (meth == 'lincomb' and field == 'real' and ka == 'complex')
             misuse = bmode == 'none+x2' and not bad_first
             bad_scalar = bad_first or (not misuse and meth == 'lincomb' and field == 'real' and bmode == 'complex')
             bad_operand = bad_first or (not misuse and r2 == 'alien' and bmode != 'none')
             info = {'case': list(map(str, case)), 'field': field}
-            for st, (status, r) in res:
+            for st, (status, r) in ctx.explore(path):
                 low = Lower(st.pc)
                 if status == 'raise':
                     exc, els, old, asp = r
@@ -342,9 +334,7 @@ def unit_space_zero(field):
             fr = ip.Frame(st)
             ret = I.call(f, [asp.space], {}, fr)
             return ('ok', (asp, ret))
-        res = ip.explore(path)
-        ctx.paths += len(res)
-        for st, (status, (asp, ret)) in res:
+        for st, (status, (asp, ret)) in ctx.explore(path):
             low = Lower(st.pc)
             ctx.prove(st, 'post:value is zero whatever element() returned', lib.eq_goal(low, content(ret), VConst(0.0)), {})
     return Unit('space/zero/%s' % field, run, funcs=[SPACE + 'LinearSpace.zero'], config={'field': field})
@@ -412,11 +402,9 @@ def unit_elem_binary(dunder, field):
                 except ip.PyRaise as e:
                     return ('raise', (e.exc, els, old))
                 return ('ok', (els, old, o, s, ret, asp))
-            res = ip.explore(path)
-            ctx.paths += len(res)
             info = {'dunder': dunder, 'other': ok, 'field': field}
             valid = ok in ('self', 'elem', 'scalar') or (ok == 'badscalar' and field == 'complex')
-            for st, (status, r) in res:
+            for st, (status, r) in ctx.explore(path):
                 low = Lower(st.pc)
                 if status == 'raise':
                     exc, els, old = r
@@ -485,10 +473,8 @@ def unit_elem_unary(meth, field):
                 except ip.PyRaise as e:
                     return ('raise', (e.exc, els, old))
                 return ('ok', (els, old, ret, a, b))
-            res = ip.explore(path)
-            ctx.paths += len(res)
             info = {'method': meth, 'variant': var, 'field': field}
-            for st, (status, r) in res:
+            for st, (status, r) in ctx.explore(path):
                 low = Lower(st.pc)
                 if status == 'raise':
                     exc, els, old = r
@@ -563,10 +549,8 @@ def unit_elem_pow(meth, field):
                 except ip.PyRaise as e:
                     return ('raise', e.exc)
                 return ('ok', (x, y, old, ret))
-            res = ip.explore(path)
-            ctx.paths += len(res)
             info = {'method': meth, 'p': p, 'field': field}
-            for st, (status, r) in res:
+            for st, (status, r) in ctx.explore(path):
                 if status == 'raise':
                     ctx.fail(st, 'no_raise', 'raises %s%r' % (lib.exc_name(r), r.fields.get('args')), info)
                     continue
